@@ -57,6 +57,23 @@ class C16(Property):
             return Result([], labels, False, outcome_label(r))
         if ferr is not None:
             return Result([specrun.fmt_violation(ferr)], labels, False, 'written')
+        viol = self.judge(spec, dec)
+        # second pass, same process: one payload is resized so that its record is exactly as long as an explicitly
+        # formatted record of the same type number (ORIGIN / WELL-REFERENCE: 1) written before it - a size coincidence
+        # that anything remembered per (type number, length) would trip over
+        spec2 = self.coincide(spec, dec)
+        if spec2 is not None:
+            labels.append('record-as-long-as-an-origin-record')
+            r2, dec2, ferr2 = specrun.write_and_decode(spec2, ctx)
+            if r2['outcome'] == 'written':
+                if ferr2 is not None:
+                    viol.append(Violation(f"size-coincidence/undecodable/{ferr2.kind}", f"{ferr2.detail} @ {ferr2.offset}"))
+                else:
+                    viol += [Violation('size-coincidence/' + v.sig, v.detail) for v in self.judge(spec2, dec2)]
+        return Result(viol, labels, nt, 'written', sample={'vrl': spec['sul']['vrl'], 'payload_lengths': pl})
+
+    @staticmethod
+    def judge(spec, dec):
         exp = Expectation(spec)
         viol = []
         for i, dlf in enumerate(dec.logical_files):
@@ -64,7 +81,30 @@ class C16(Property):
             probs = probs + compare.check_noformat(dlf, exp, i, opmap)
             for k, w, d in probs:
                 viol.append(Violation(f"{k}/{w}", d))
-        return Result(viol, labels, nt, 'written', sample={'vrl': spec['sul']['vrl'], 'payload_lengths': pl})
+        return viol
+
+    @staticmethod
+    def coincide(spec, dec):
+        import copy
+        for i, dlf in enumerate(dec.logical_files[:len(spec['lfs'])]):
+            targets = [len(rec.body) for rec in dlf.records if rec.is_eflr and rec.type == 1]
+            if not targets or not dlf.noformat:
+                continue
+            obname, payload, ridx = dlf.noformat[0]
+            recs = [rec for rec in dlf.records if not rec.is_eflr and rec.type == 1]
+            if not recs:
+                continue
+            overhead = len(recs[0].body) - len(payload)
+            want = targets[0] - overhead
+            ops = spec['lfs'][i]['ops']
+            js = [j for j, op in enumerate(ops) if op['t'] == 'nfdata']
+            if want < 0 or not js or overhead < 0:
+                continue
+            s2 = copy.deepcopy(spec)
+            s2['write'] = {k: v for k, v in (s2.get('write') or {}).items() if k != 'prelude'}
+            s2['lfs'][i]['ops'][js[0]]['payload'] = {'k': 'bytes', 'hex': bytes((7 * n + 1) % 251 for n in range(want)).hex()}
+            return s2
+        return None
 
 
 PROP = C16()
